@@ -112,6 +112,7 @@ def check(prog: Program, run: Run) -> None:
         raise AnalysisError("more than 10% of the call sites needed the name-based fallback")
     _implicit(prog, run, eff)
     _truncation(prog, run)
+    _counted_loops(prog, run)
     _handlers(prog, run)
 
 
@@ -356,6 +357,56 @@ def _truncation(prog: Program, run: Run) -> None:
             run.violation(R, "MinMaxLengthType.decode_from_pdu", "min-length-guard-test",
                           f"`{ast.unparse(t)}` is not cursor + min_length > len(PDU)",
                           f"{m.module.rel}:{mg[0].lineno}")
+
+
+def _counted_loops(prog: Program, run: Run) -> None:
+    """A decoder loop whose iteration count comes from the description or from the PDU
+    (`for … in range(n)`) runs n times or raises: leaving it early accepts a PDU that ends
+    before the last announced item."""
+    R = "C05.R2"
+    n = 0
+    for f in prog.iter_functions():
+        if f.name != "decode_from_pdu" or not f.module.rel.startswith("odxtools/"):
+            continue
+        for lp in walk_no_nested(f.node):
+            if not (isinstance(lp, ast.For) and isinstance(lp.iter, ast.Call) and
+                    call_name(lp.iter) == "range"):
+                continue
+            n += 1
+            C = f.qual
+            exits = []
+
+            def scan(body):
+                for st in body:
+                    if isinstance(st, (ast.Break, ast.Return)):
+                        exits.append(st)
+                    elif isinstance(st, (ast.For, ast.While)):
+                        # a break in a nested loop leaves that loop only; returns still count
+                        for z in ast.walk(st):
+                            if isinstance(z, ast.Return):
+                                exits.append(z)
+                    else:
+                        for fld in ("body", "orelse", "finalbody", "handlers"):
+                            sub = getattr(st, fld, None)
+                            if isinstance(sub, list):
+                                scan([h for h in sub if isinstance(h, ast.stmt)] + [
+                                    b for h in sub if isinstance(h, ast.ExceptHandler)
+                                    for b in h.body])
+            scan(lp.body)
+            if exits:
+                e = exits[0]
+                run.violation(R, C, "counted-loop-left-early",
+                              f"the loop `for … in {ast.unparse(lp.iter)}` can be left by "
+                              f"`{stmt_key(e)}` (line {e.lineno}) before all announced items "
+                              "were decoded: a PDU truncated at an item boundary is accepted "
+                              "with fewer items instead of being rejected with a DecodeError",
+                              f"{f.module.rel}:{e.lineno}", stmt_key(lp))
+            else:
+                run.ok(R, C, f"`for … in {ast.unparse(lp.iter)}` decodes every announced item "
+                       "or raises", f"{f.module.rel}:{lp.lineno}")
+    if n < 2:
+        run.error(R, f"only {n} counted decoder loops found (expected DynamicLengthField and "
+                  "StaticField)")
 
 
 # ----------------------------------------------------------------- handlers
